@@ -39,6 +39,7 @@ typedef struct {
   int pct_depth;        /* number of priority change points for PCT */
   int pct_len;          /* estimated run length (points) for PCT */
   long max_spin;        /* consecutive non-progress spins before DEADLOCK verdict */
+  long max_events;      /* events in one armed run before HANG verdict (a retry loop that can never succeed) */
   int watchdog_s;       /* wall-clock seconds without any point => HANG verdict */
   int vclock;           /* 1: hr_gettime is served by the virtual clock */
   long vclock_step_ns;  /* max random advance per read */
